@@ -257,7 +257,7 @@ def run_cc_jac(normalize, order):
 
 def run_dopt(n_disciplines, linear, extra):
     """Real DisciplinaryOpt: the design space is restricted to the inputs of the discipline (or of the chain of the disciplines) and the
-    objective is the discipline's output - also for disciplines declared linear (known finding: ValueError when a variable is filtered out)."""
+    objective is the discipline's output - also for disciplines declared linear (repaired defect: ValueError when a variable was filtered out)."""
     from gemseo.algos.design_space import DesignSpace
     from gemseo.disciplines.analytic import AnalyticDiscipline
     from gemseo.formulations.disciplinary_opt import DisciplinaryOpt
@@ -354,7 +354,7 @@ def replay(ob, seed=0):
         kinds = ("mdf_update",)
     if "ConsistencyConstraint._jac_to_wrap" in ob.func or "ConsistencyConstraint.__init__" in ob.func:
         kinds = ("cc_jac",)
-    if "DisciplinaryOpt" in ob.func or "DesignSpace.filter" in ob.func:
+    if "DisciplinaryOpt" in ob.func or "DesignSpace.filter" in ob.func or "_build_objective_from_disc" in ob.func:
         kinds = ("dopt",)
     for s in scenarios():
         if s["kind"] not in kinds:
